@@ -92,105 +92,101 @@ def R2_direction(ctx):
 
 
 def R3_backtrack(ctx):
-    """C01.R3 backtrack discipline"""
+    """C01.R3 backtrack discipline (decided on the loop's one-iteration transfer function, independent of loop/while/match/? spelling)"""
     F = ctx.F
-    ctx.rule("C01.R3", "vertex_oriented_route walks this := tree[this].terminal_vertex from the target until the source, Err on a missing entry and on a repeated edge, one push per step, reversed exactly once; edge_oriented_route starts from (src of origin edge, dst of destination edge)", floor=9)
+    ctx.rule("C01.R3", "vertex_oriented_route: a cursor starts at the target; every turn looks the cursor up in the given tree, Err when the entry is missing, Err when its edge id was already inserted into the visited set, pushes that entry's traversal exactly once and moves the cursor to the entry's terminal_vertex; the only non-error way out of the loop is cursor == source; the collected edges are reversed exactly once and returned; edge_oriented_route starts from (src of origin edge, dst of destination edge)", floor=9)
     b = F.need(astar.A + "backtrack::vertex_oriented_route")
     tm = Terms(b)
     gets = [c for c in b.calls() if c.callee and c.callee.startswith("std::collections::HashMap::<K, V, S, A>::get")]
     if len(gets) != 1:
         raise AnchorMissing("single tree lookup in vertex_oriented_route")
     g = gets[0]
-    loop = innermost_loop(b, g.bb)
-    ctx.check(loop is not None, "loop", "the tree lookup is not inside a loop", g.where())
-    if loop is None:
+    loop = outermost_loop(b, g.bb)
+    if not ctx.check(loop is not None, "loop", "the tree lookup is not inside a loop", g.where()):
         return
-    recv = deep_strip(tm.operand(g.args[0], g.bb))
-    ctx.check(recv == ("arg", 3), "lookup-in-tree", "lookup is not in the given tree", g.where())
-    # the cursor local: the lookup key operand is a borrow of a local with two definitions
-    cursor = root_local(b, g.args[1])
-    if cursor is not None and len([d for d in b.defs.get(cursor, []) if not d[2]]) < 2:
-        cursor = None
-    if cursor is None:
-        ctx.bad("cursor", "lookup key is not a cursor variable", g.where())
+    h = loop[0]
+    rows = iteration_table(b, h)
+    backs = [r for r in rows if r.kind == "back"]
+    rets = [r for r in rows if r.kind == "return"]
+    U = lambda t: _unmut_all(nosite(deep_strip(t)))
+    # the cursor: the carried local used as the lookup key
+    cursor = None
+    for r in backs:
+        for _, v in r.calls:
+            if v[0] == "call" and v[1].startswith("std::collections::HashMap::<K, V, S, A>::get"):
+                k = U(v[2][1])
+                if k[0] == "carried":
+                    cursor = k[1]
+    if not ctx.check(cursor is not None and bool(backs), "cursor", "the lookup key is not a loop-carried cursor", g.where()):
         return
-    defs = [(bb, pos) for (bb, pos, proj) in b.defs.get(cursor, []) if pos != "term" and not proj]
-    inits = [(bb, pos) for bb, pos in defs if bb not in loop[1]]
-    upds = [(bb, pos) for bb, pos in defs if bb in loop[1]]
-    entry = strip_try(deep_strip(tm.call_term(g.term, g.bb)))
-    oki = len(inits) == 1 and deep_strip(tm.rvalue(b.blocks[inits[0][0]]["stmts"][inits[0][1]]["rv"], *inits[0])) == ("arg", 2)
-    ctx.check(oki, "start-at-target", "the walk does not start at the target vertex", b.where())
-    oku = len(upds) == 1
-    if oku:
-        ut = nosite(deep_strip(tm.rvalue(b.blocks[upds[0][0]]["stmts"][upds[0][1]]["rv"], *upds[0])))
-        oku = loopfree(ut) == loopfree(("field", nosite(entry), "terminal_vertex"))
-        ctx.check(oku, "advance-to-parent", "the cursor is not advanced to tree[cursor].terminal_vertex: %s" % short(ut)[:160], b.where(upds[0][0]), detail=short(ut)[:100])
-    else:
-        ctx.bad("advance-to-parent", "expected exactly one cursor update in the loop, found %d" % len(upds), b.where())
-    # missing entry => Err (ok_or / ok_or_else + `?`)
-    oo = [c for c in b.calls() if c.callee and re.search(r"Option::<T>::ok_or(_else)?$", c.callee) and loopfree(nosite(tm.operand(c.args[0], c.bb))) == loopfree(nosite(tm.call_term(g.term, g.bb)))]
-    okm = len(oo) == 1 and try_propagation(b, oo[0], tm)["kind"] == "propagated"
-    ctx.check(okm, "missing-entry=>Err", "a missing tree entry is not turned into a propagated Err", g.where())
-    # repeated edge guard
-    ins = [c for c in b.calls() if c.callee and c.callee.startswith("std::collections::HashSet::<T, S, A>::insert") and c.bb in loop[1]]
-    okr = len(ins) == 1
-    if okr:
-        v = nosite(deep_strip(tm.operand(ins[0].args[1], ins[0].bb)))
-        okr = loopfree(v) == loopfree(("field", ("field", nosite(entry), "edge_traversal"), "edge_id"))
-        verdict = deep_strip(tm.call_term(ins[0].term, ins[0].bb))
-        sw = None
-        for bb, dt, names, t in switches(b, tm):
-            d = deep_strip(dt)
-            neg = False
-            if d[0] == "un" and d[1] == "Not":
-                d, neg = d[2], True
-            if d == verdict:
-                fl, tr = bool_targets(t)
-                if neg:
-                    fl, tr = tr, fl
-                sw = (bb, fl, tr)
-        if sw is None:
-            okr = False
+    C = ("carried", cursor)
+    entry = ("call", g.callee, (("arg", 3), C))
+    ctx.check(U(loop_entry_value(b, h, cursor)) == ("arg", 2), "start-at-target", "the walk does not start at the target vertex: %s" % short(U(loop_entry_value(b, h, cursor))), b.where(), detail="cursor = target")
+    ok_look = ok_adv = ok_push = ok_ins = True
+    for r in backs:
+        calls = [U(v) for _, v in r.calls]
+        looks = [v for _, k, v in r.sites if k == g.callee]
+        ok_look = ok_look and [U(v) for v in looks] == [entry]
+        ok_adv = ok_adv and U(r.new(cursor)) == ("field", entry, "terminal_vertex")
+        pushes = [U(v) for _, k, v in r.sites if (k or "").startswith("std::vec::Vec::<T, A>::push")]
+        ok_push = ok_push and len(pushes) == 1 and pushes[0][2][1] == ("field", entry, "edge_traversal")
+        ins = [U(v) for _, k, v in r.sites if (k or "").startswith("std::collections::HashSet::<T, S, A>::insert")]
+        good = len(ins) == 1 and ins[0][2][1] == ("field", ("field", entry, "edge_traversal"), "edge_id")
+        if good:
+            # the turn continues only when insert returned true
+            good = any(U(d) == ins[0] and l != 0 for d, l, _ in r.conds) or any(U(d) == ("un", "Not", ins[0]) and l == 0 for d, l, _ in r.conds)
+        ok_ins = ok_ins and good
+    ctx.check(ok_look, "lookup-in-tree", "a turn does not look the cursor up in the given tree (exactly once)", g.where(), detail="tree.get(&cursor)")
+    ctx.check(ok_adv, "advance-to-parent", "the cursor is not advanced to tree[cursor].terminal_vertex", b.where(h), detail="cursor = entry.terminal_vertex")
+    ctx.check(ok_push, "push-entry-traversal", "each step does not push tree[cursor].edge_traversal exactly once", b.where(h), detail="route.push(entry.edge_traversal)")
+    ctx.check(ok_ins, "repeated-edge=>Err", "a turn does not insert the entry's edge id into the visited set and continue only when it was new", b.where(h), detail="visited.insert(edge_id) must be true")
+    # exits
+    src_eq = lambda f: f[0] == "Eq" and {f[1], f[2]} == {C, ("arg", 1)}
+    n_ok = 0
+    ok_exit = ok_missing = ok_repeat = True
+    seen_missing = seen_repeat = False
+    for r in rets:
+        rv = U(r.ret)
+        if result_variant(rv) == "Ok":
+            n_ok += 1
+            ok_exit = ok_exit and any(src_eq(f) for f in r.facts)
         else:
-            vals = region_value(b, (sw[0], sw[1]), stop_blocks=[g.bb])
-            okr = okr and bool(vals) and all(is_err_value(deep_strip(v)) for _, v in vals)
-    ctx.check(okr, "repeated-edge=>Err", "there is no guard that returns Err when an edge id is seen twice (HashSet::insert == false)", b.where())
-    # one push per step of the entry's traversal
-    pushes = [c for c in b.calls() if c.callee and c.callee.startswith("std::vec::Vec::<T, A>::push") and c.bb in loop[1]]
-    okp = len(pushes) == 1 and loopfree(nosite(deep_strip(tm.operand(pushes[0].args[1], pushes[0].bb)))) == loopfree(("field", nosite(entry), "edge_traversal"))
-    ctx.check(okp, "push-entry-traversal", "each step does not push tree[cursor].edge_traversal exactly once", b.where())
-    # loop ends exactly when cursor == source
-    exits = [(x, y) for (x, y) in loop_exit_edges(b, loop[1])]
-    normal = []
-    for (x, y) in exits:
-        vals = region_value(b, (x, y))
-        if vals and all(is_err_value(deep_strip(v)) for _, v in vals):
-            continue
-        normal.append((x, y))
-    oke = len(normal) == 1
-    if oke:
-        x, y = normal[0]
-        t = b.blocks[x]["term"]
-        oke = False
-        if t["k"] == "switch":
-            d, names = switch_discr_info(b, x)
-            c = as_cmp(deep_strip(tm.operand(d, x)))
-            if c and c[0] == "Eq":
-                ops = {nosite(unmut(c[1])), nosite(unmut(c[2]))}
-                fl, tr = bool_targets(t)
-                oke = ("arg", 1) in ops and tr == y
-    ctx.check(oke, "stop-at-source", "the loop's only normal exit is not `cursor == source`", b.where())
-    # reversed exactly once
-    rt = tm.return_term()
-    revs = [c for c in calls_in(rt) if re.search(r"Iterator::rev$|slice::<impl \[T\]>::reverse$", c[1])]
-    revcalls = [c for c in b.calls() if c.callee and re.search(r"Iterator::rev$|slice::<impl \[T\]>::reverse$", c.callee)]
-    ctx.check(len(revcalls) == 1, "reversed-once", "the collected edges are reversed %d times (expected exactly once)" % len(revcalls), b.where(), detail="rev() x1")
+            if not (is_err_value(r.ret) or result_variant(rv) == "Err"):
+                ok_exit = False
+            sel = [l for d, l, _ in r.conds if d[0] == "discr" and contains(U(d[1]), lambda q: q == entry)]
+            if any(l == "None" or l == "Break" for l in sel):
+                seen_missing = True
+            calls = [U(v) for _, v in r.calls]
+            if any(v[0] == "call" and v[1].startswith("std::collections::HashSet::<T, S, A>::insert") for v in calls):
+                seen_repeat = True
+    ctx.check(ok_exit and n_ok >= 1, "stop-at-source", "the loop's only normal exit is not `cursor == source`", b.where(h), detail="Ok only under cursor == source")
+    ctx.check(seen_missing, "missing-entry=>Err", "a missing tree entry is not turned into an Err return", g.where(), detail="None => Err")
+    ctx.check(seen_repeat, "repeated-edge-exit", "there is no Err exit after a failed visited.insert", b.where(h), detail="insert == false => Err")
+    # reversed exactly once, and the returned vector is the pushed one
+    revcalls = [c for c in b.calls() if c.callee and re.search(r"Iterator::rev$|slice::<impl \[T\]>::reverse$", c.callee) and c.bb not in loop[1]]
+    inloop = [c for c in b.calls() if c.callee and re.search(r"Iterator::rev$|slice::<impl \[T\]>::reverse$", c.callee) and c.bb in loop[1]]
+    ctx.check(len(revcalls) == 1 and not inloop, "reversed-once", "the collected edges are reversed %d times after the loop (expected exactly once, none inside)" % len(revcalls), b.where(), detail="rev()/reverse() x1")
+    pushed = None
+    for c in b.calls():
+        if c.callee and c.callee.startswith("std::vec::Vec::<T, A>::push") and c.bb in loop[1]:
+            pushed = unmut(tm.operand(c.args[0], c.bb))
+    okr = pushed is not None and len(revcalls) == 1 and contains(tm.operand(revcalls[0].args[0], revcalls[0].bb), lambda q: unmut(q) == pushed)
+    if okr:
+        rt = tm.return_term()
+        rv_t = tm.call_term(revcalls[0].term, revcalls[0].bb)
+        # Ok(<the reversed vector>): either the rev() adaptor chain is returned or reverse() mutated the vector that is returned
+        okr = contains(rt, lambda q: q == rv_t) or contains(rt, lambda q: unmut(q) == pushed)
+    ctx.check(okr, "returns-the-collected-edges", "the vector that is reversed and returned is not the one the loop pushes into", b.where(), detail="Ok(reverse(route))")
     # edge oriented
     eb = F.need(astar.A + "backtrack::edge_oriented_route")
     ert = nosite(deep_strip(Terms(eb).return_term()))
     want = ("call", b.path, (("call", G + "src_vertex_id", (("arg", 4), ("arg", 1))), ("call", G + "dst_vertex_id", (("arg", 4), ("arg", 2))), ("arg", 3)))
     alts = set(ert[1]) if ert[0] == "phi" else {ert}
     ctx.check(want in alts, "edge-oriented-ends", "edge_oriented_route does not backtrack from dst(target edge) to src(source edge): %s" % short(ert)[:200], eb.where(), detail=short(want)[:120])
+
+
+def _unmut_all(t):
+    return rewrite(t, lambda x: unmut(x) if x[0] == "mut" else None)
 
 
 def _edge_oriented(ctx, b, is_ksp):
@@ -319,6 +315,10 @@ def R5_reorient(ctx, rid="C01.R5"):
     loop = innermost_loop(b, ft.bb)
     ctx.check(loop is not None, "loop", "re-traversal is not in a loop", ft.where())
     args = [nosite(deep_strip(tm.operand(x, ft.bb))) for x in ft.args]
+    if loop is not None and not [c for c in b.calls() if (c.callee or "").endswith("tuple_windows")]:
+        _reorient_carried_form(ctx, b, tm, ft, loop)
+        _single_via_chain(ctx, b)
+        return
     win = [c for c in calls_in(args[0]) if c[1].endswith("tuple_windows")]
     ctx.check(bool(win), "pairs:windows", "consecutive pairs are not taken with tuple_windows over the id list", ft.where())
     # next = pair.1, prev = pair.0 of the same window element
@@ -359,6 +359,11 @@ def R5_reorient(ctx, rid="C01.R5"):
         pv = nosite(strip_try(deep_strip(tm.operand(pushes[0].args[1], pushes[0].bb))))
         okp = pv[0] == "call" and pv[1] == ET + "::forward_traversal" and pv[2][:2] == tuple(args[:2])
     ctx.check(okp, "push-each", "each re-traversed edge is not pushed exactly once to the result", b.where())
+    _single_via_chain(ctx, b)
+
+
+def _single_via_chain(ctx, b):
+    F = ctx.F
     # single via: chain(fwd, reoriented)
     sb = F.need(astar.A + "ksp::single_via_paths_algorithm::run")
     stm = Terms(sb)
@@ -372,11 +377,78 @@ def R5_reorient(ctx, rid="C01.R5"):
     ctx.check(okc, "single-via:chain-order", "single-via does not chain the forward route followed by the re-oriented reverse route built from it", sb.where(), detail="fwd_route.chain(reoriented)")
 
 
+def _reorient_carried_form(ctx, b, tm, ft, loop):
+    """the same mechanism written with a running predecessor: for e in rev_route.iter().rev(): t = forward_traversal(e.edge_id,
+    prev, state); state = t.result_state; prev = Some(e.edge_id); push(t) — with prev/state starting from the forward route's last edge"""
+    F = ctx.F
+    U = lambda t: _unmut_all(nosite(deep_strip(t)))
+    h = loop[0]
+    rows = iteration_table(b, h)
+    backs = [r for r in rows if r.kind == "back"]
+    if not ctx.check(bool(backs), "loop-turn", "no complete loop turn found", ft.where()):
+        return
+    lst = ("call", "std::slice::<impl [T]>::last", (("arg", 1),))
+    ok_iter = ok_roles = ok_prev = ok_state = ok_push = True
+    pcar = scar = None
+    for r in backs:
+        fts_ = [U(v) for _, k, v in r.sites if k == ET + "::forward_traversal"]
+        nxs = [U(v) for _, k, v in r.sites if k and itm(k, "next")]
+        if len(fts_) != 1 or len(nxs) != 1:
+            ok_roles = False
+            continue
+        a = fts_[0][2]
+        N = nxs[0]
+        recv = N[2][0]
+        revs = [c for c in calls_in(recv) if itm(c[1], "rev")]
+        ok_iter = ok_iter and len(revs) == 1 and contains(revs[0], lambda q: q == ("call", "std::slice::<impl [T]>::iter", (("arg", 2),))) and not [c for c in calls_in(recv) if re.search(r"Iterator>?::(skip|take|step_by|filter|chain|zip)$", c[1])]
+        # the id handed over as `next`: the element's edge_id (directly, or through a map closure returning .edge_id)
+        maps = [c for c in calls_in(recv) if itm(c[1], "map")]
+        if maps:
+            cl = maps[0][2][1]
+            okm = cl[0] == "closure" and U(Terms(F.need(cl[1])).return_term()) in (("field", ("arg", 2), "edge_id"),)
+            nid = N if okm else None
+        else:
+            nid = ("field", N, "edge_id")
+        ok_roles = ok_roles and nid is not None and a[0] == nid and a[1][0] == "carried" and a[3] == ("arg", 3)
+        if a[1][0] == "carried":
+            pcar = a[1][1]
+            ok_prev = ok_prev and U(r.new(pcar)) == ("agg", "std::option::Option", "Some", (("0", nid),))
+        st = a[2]
+        if st[0] == "carried":
+            scar = st[1]
+            ok_state = ok_state and U(r.new(scar)) == ("field", fts_[0], "result_state")
+        else:
+            ok_state = False
+        pushes = [U(v) for _, k, v in r.sites if (k or "").startswith("std::vec::Vec::<T, A>::push")]
+        ok_push = ok_push and len(pushes) == 1 and pushes[0][2][1] == fts_[0]
+    ctx.check(ok_iter, "ids:reversed", "the reverse route's edges are not consumed in reversed order (rev() over rev_route.iter(), nothing skipped)", ft.where(), detail="rev_route.iter().rev()")
+    ctx.check(ok_roles, "pairs:roles", "forward_traversal is not called with (next = this element's edge id, previous = the running predecessor, si)", ft.where(), detail="(e.edge_id, prev, state, si)")
+    ctx.check(ok_prev and pcar is not None, "pairs:predecessor-advances", "the running predecessor is not set to Some(this edge id) after each re-traversal", ft.where(), detail="prev = Some(e.edge_id)")
+    ctx.check(ok_state and scar is not None, "state:carried", "the accumulated state is not updated from each traversal's result (stale state)", ft.where(), detail="state = t.result_state")
+    ctx.check(ok_push, "push-each", "each re-traversed edge is not pushed exactly once to the result", b.where(), detail="result.push(t)")
+    if pcar is not None:
+        p0 = U(loop_entry_value(b, h, pcar))
+        alts = set(p0[1]) if p0[0] == "phi" else {p0}
+        okp0 = any(x == ("agg", "std::option::Option", "Some", (("0", ("field", lst, "edge_id")),)) for x in alts) and all(x == ("agg", "std::option::Option", "None", ()) or contains(x, lambda q: q == ("field", lst, "edge_id")) for x in alts)
+        ctx.check(okp0, "ids:prefixed-by-last-forward-edge", "the first re-traversal does not have the forward route's last edge as its predecessor: %s" % short(p0)[:160], b.where(), detail="prev0 = fwd.last().map(edge_id)")
+    if scar is not None:
+        s0 = U(loop_entry_value(b, h, scar))
+        alts = set(s0[1]) if s0[0] == "phi" else {s0}
+        ctx.check(any(contains(x, lambda q: q == ("field", lst, "result_state")) for x in alts), "state:starts-from-forward-half", "the first re-traversal does not start from the forward route's final state: %s" % short(s0)[:160], ft.where(), detail="state0 = fwd.last().result_state")
+    # what is returned is the vector pushed into
+    oks = [r for r in rows if r.kind == "return" and result_variant(U(r.ret)) == "Ok"]
+    ctx.check(bool(oks), "returns-result", "no Ok return after the loop", b.where())
+
+
 def loop_test_rule(ctx, rid):
     """route_contains_loop = the source vertices of the route's edges are not all distinct"""
     F = ctx.F
     ctx.rule(rid, "route_contains_loop compares the number of *distinct* source vertices (set semantics: unique()/HashSet) of all route edges with their total number, `distinct < all`", floor=3)
     b = F.need(astar.A + "a_star::bidirectional_ops::route_contains_loop")
+    loops = b.natural_loops()
+    if loops:
+        _loop_test_set_form(ctx, b, loops)
+        return
     rows = [r for r in table(b) if r.end == "return" and result_variant(r.ret) == "Ok"]
     ctx.check(len(rows) == 1, "paths", "expected one Ok path, found %d" % len(rows), b.where())
     if not rows:
@@ -403,9 +475,49 @@ def loop_test_rule(ctx, rid):
     ctx.check(same, "same-vertices", "distinct count is not taken over the same source-vertex list", b.where())
 
 
+def _loop_test_set_form(ctx, b, loops):
+    """for e in route { set.insert(src_vertex_id(e.edge_id)?) }; Ok(set.len() < route.len())"""
+    U = lambda t: _unmut_all(nosite(deep_strip(t)))
+    h = loops[0][0]
+    rows = iteration_table(b, h)
+    backs = [r for r in rows if r.kind == "back"]
+    ok = bool(backs)
+    setterm = None
+    for r in backs:
+        nxs = [U(v) for _, k, v in r.sites if k and itm(k, "next")]
+        ins = [(v, U(v)) for _, k, v in r.sites if (k or "").startswith("std::collections::HashSet::<T, S, A>::insert") or (k or "").startswith("std::collections::BTreeSet")]
+        if len(nxs) != 1 or len(ins) != 1:
+            ok = False
+            continue
+        N = nxs[0]
+        ok = ok and contains(N, lambda q: q == ("call", "std::slice::<impl [T]>::iter", (("arg", 1),))) and not [c for c in calls_in(N) if re.search(r"Iterator>?::(skip|take|step_by|filter)$", c[1])]
+        v = ins[0][1][2][1]
+        ok = ok and v[0] == "call" and v[1] == G + "src_vertex_id" and v[2][1] == ("field", N, "edge_id")
+        setterm = ins[0][1][2][0]
+    ctx.check(ok, "all-source-vertices", "every route edge's source vertex is not inserted into the set (one insert of src_vertex_id(e.edge_id) per edge, no edge skipped)", b.where(), detail="for e in route: set.insert(src(e))")
+    rets = [r for r in rows if r.kind == "return" and result_variant(U(r.ret)) == "Ok"]
+    okc = bool(rets)
+    for r in rets:
+        c = as_cmp(agg_payload(U(r.ret)))
+        if not c:
+            okc = False
+            continue
+        c = canon_cmp(c)
+        small, big = c[1], c[2]
+        okc = okc and c[0] == "Lt" and small[0] == "call" and re.search(r"(HashSet|BTreeSet)::<.*>::len$", small[1]) is not None and big == ("call", "std::slice::<impl [T]>::len", (("arg", 1),))
+    ctx.check(okc, "distinct-count", "the result is not `set.len() < route.len()` (set semantics)", b.where(), detail="HashSet len < route len")
+    ctx.check(okc and ok, "same-vertices", "distinct count is not taken over the same source-vertex list", b.where())
+
+
 def R6_loop_test(ctx):
     """C01.R6 loop test used for stitched routes"""
     loop_test_rule(ctx, "C01.R6")
 
 
-RULES = [R1_tree_update, R2_direction, R3_backtrack, R4_edge_oriented, R5_reorient, R6_loop_test]
+def R7_single_via_acceptance(ctx):
+    """C01.R7 = C13.R2: a single-via candidate is pushed only when the loop test (R6) and the other acceptance tests passed"""
+    from props.C13 import R2_single_via
+    R2_single_via(ctx)
+
+
+RULES = [R1_tree_update, R2_direction, R3_backtrack, R4_edge_oriented, R5_reorient, R6_loop_test, R7_single_via_acceptance]
